@@ -301,7 +301,27 @@ func O11(rc *RC, floor int) {
 			continue
 		}
 		_, tree := sCanon(rc, fi)
-		if !strings.Contains(stripFuncLits(ir.Render(tree)), "ReturnInts(") {
+		rel := o11Releasers(rc)
+		hostType := "Dense"
+		if fi.Decl.Recv != nil && strings.Contains(fi.Key, "(*AP)") {
+			hostType = "AP"
+		}
+		relCall := func(h string) string {
+			for _, m := range o11Call.FindAllStringSubmatch(h, -1) {
+				typ := "Dense"
+				if m[1] == "r" {
+					typ = hostType
+				}
+				if m[2] != "" {
+					typ = "AP"
+				}
+				if rel[typ+"."+m[3]] {
+					return "$" + m[1] + m[2] + "." + m[3] + "()"
+				}
+			}
+			return ""
+		}
+		if txt := stripFuncLits(ir.Render(tree)); !strings.Contains(txt, "ReturnInts(") && relCall(txt) == "" {
 			continue
 		}
 		pos := rc.P.Pos(fi.Decl.Pos())
@@ -313,13 +333,32 @@ func O11(rc *RC, floor int) {
 		bad := ""
 		for _, p := range paths {
 			released := ""
+			copied := map[string]bool{} // parameters re-bound to a private copy on this path
 			for _, st := range p.Steps {
 				h := stripFuncLits(st.Head)
-				if released != "" {
+				if (st.Kind == "store" || st.Kind == "let") && o11FreshCopy.MatchString(st.Value) {
 					for _, prm := range params {
+						if st.Target == prm && released == "" {
+							copied[prm] = true
+						}
+					}
+				}
+				if released != "" && !o11OnlyInMessage(h) {
+					for _, prm := range params {
+						if copied[prm] {
+							continue
+						}
 						if ir.HasWord(h, prm) {
 							bad = fmt.Sprintf("on [%s] %s is read by `%s` after `%s`: if the caller passed the released slice itself, it has been zeroed", strings.Join(p.Guards, " && "), prm, clip(h, 80), released)
 						}
+					}
+				}
+				// a method of the tensor / its access pattern that gives slices of the object back to
+				// the pool (Transpose drops the saved pattern, UT and zero likewise) releases too
+				if released == "" && st.Kind != "defer" {
+					if rc := relCall(h); rc != "" {
+						released = clip(h, 60) + " (which returns slices of the object to the pool)"
+						continue
 					}
 				}
 				if i := strings.Index(h, "ReturnInts("); i >= 0 && released == "" {
@@ -341,6 +380,11 @@ func O11(rc *RC, floor int) {
 			if bad != "" {
 				break
 			}
+		}
+		if why, ok := o11Except[fi.Key]; ok && bad != "" {
+			rc.S.Except("O11 "+fi.Key, why)
+			rc.S.Ok("O11", fi.Key, pos, "exception: "+why)
+			continue
 		}
 		if bad != "" {
 			rc.S.Viol("O11", fi.Key, pos, bad).Sig = "read after release"
@@ -478,3 +522,79 @@ func O12(rc *RC) {
 		rc.S.Ok("O12", fi.Key, pos, fmt.Sprintf("%d paths, each with a pooled buffer and newAlloc = true", n))
 	}
 }
+
+var o11RelCache = map[*RC]map[string]bool{}
+
+// $x.M( or $x.AP.M( / $x.old.M(
+var o11Call = regexp.MustCompile(`\$([A-Za-z_]\w*)(\.(?:AP|old))?\.([A-Za-z_]\w*)\(`)
+
+// o11Releasers: names of methods of Dense / AP that hand a slice owned by their receiver to
+// ReturnInts, directly or through another such method of the receiver.
+func o11Releasers(rc *RC) map[string]bool {
+	if m, ok := o11RelCache[rc]; ok {
+		return m
+	}
+	rel := map[string]bool{}
+	type mt struct{ name, text string }
+	var ms []mt
+	for _, fi := range rc.P.SortedFuncs() {
+		if fi.Pkg != rc.P.Root || fi.Decl == nil || fi.Decl.Body == nil || fi.Decl.Recv == nil || strings.HasSuffix(fi.File, "_test.go") {
+			continue
+		}
+		sig := fi.Obj.Type().(*types.Signature)
+		ptr, isPtr := sig.Recv().Type().(*types.Pointer)
+		if !isPtr {
+			continue
+		}
+		if named, isNamed := ptr.Elem().(*types.Named); !isNamed || !map[string]bool{"Dense": true, "AP": true}[named.Obj().Name()] {
+			continue
+		}
+		c := ir.NewCanon(rc.P.Fset, fi.Pkg.TypesInfo, ir.Options{ParamNames: true, KeepNames: true, NoSubst: true})
+		named := ptr.Elem().(*types.Named)
+		ms = append(ms, mt{named.Obj().Name() + "." + fi.Obj.Name(), ir.Render(c.Func(fi.Decl))})
+	}
+	for _, x := range ms {
+		if strings.Contains(x.text, "ReturnInts($r.") {
+			rel[x.name] = true
+		}
+	}
+	for changed := true; changed; {
+		changed = false
+		for _, x := range ms {
+			if rel[x.name] {
+				continue
+			}
+			own := x.name[:strings.Index(x.name, ".")]
+			for _, c := range o11Call.FindAllStringSubmatch(x.text, -1) {
+				if c[1] != "r" {
+					continue
+				}
+				typ := own
+				if c[2] != "" {
+					typ = "AP" // $r.AP.M(), $r.old.M()
+				}
+				if rel[typ+"."+c[3]] {
+					rel[x.name] = true
+					changed = true
+					break
+				}
+			}
+		}
+	}
+	o11RelCache = map[*RC]map[string]bool{rc: rel}
+	return rel
+}
+
+// o11OnlyInMessage: the statement only builds an error value (the parameter is formatted into a
+// message, not used to compute anything).
+func o11OnlyInMessage(h string) bool {
+	h = strings.TrimSpace(h)
+	return regexp.MustCompile(`^(\$ret\d+|%\w+) = errors\.\w+\(`).MatchString(h) || strings.HasPrefix(h, "return errors.") || regexp.MustCompile(`^return [^(]*, errors\.`).MatchString(h)
+}
+
+var o11Except = map[string]string{
+	"tensor.(*Dense).T": "the slices Transpose() releases are the saved shape and strides of a tensor with a pending transpose (every extent >= 1, strides of a non-scalar), the parameter is a permutation of 0..rank-1, which contains 0: for rank >= 2 the two cannot be one slice (the saved permutation itself is a private copy since finding 8 and is not pooled by Transpose)",
+}
+
+// o11FreshCopy: the value is a private copy of a slice (append to a nil/empty slice, Clone()).
+var o11FreshCopy = regexp.MustCompile(`^append\(\[\]int\((nil)?\)?(\{\})?, |^append\(\[\]int\{\}, |\.Clone\(\)$|^tensor\.Shape\(.*\)\.Clone\(\)$`)
